@@ -34,7 +34,7 @@ LEVELS = {
 WITNESSES = ['precondition_error', 'postcondition_error', 'invariant_error', 'transition_contract_error',
              'invariant_on_empty_step', 'old_seen_by_state', 'old_seen_by_transition', 'all_conditions_hold']
 STUBS = ['conditions are the code strings "C(kind, id, j, v, old)"; C logs and returns a fresh symbolic Boolean '
-         'per occurrence', 'every entry/exit/action fragment also runs "v = v + 1" on a symbolic integer v']
+         'per occurrence', 'every entry/exit/action fragment also runs "v = v + 1" on a symbolic integer v and "L.append(1)" on a list (in-place mutation: __old__ must be a snapshot)']
 ASSUMPTIONS = ['well-formed charts (DESIGN §2) over basic/compound/orthogonal/final states', 'events from {a, none}',
                'the order in which the invariants of different active states are checked at the end of a macro '
                'step is not demanded (each state\'s own invariants in declaration order)',
@@ -62,17 +62,17 @@ def canary_job():
 
 
 def cond(kind, ident, which, j):
-    old = 'None' if which == 'pre' else '__old__.v'
-    return "C(%r, %d, %r, %d, v, %s)" % (kind, ident, which, j, old)
+    old = 'None, None' if which == 'pre' else '__old__.v, len(__old__.L)'
+    return "C(%r, %d, %r, %d, v, len(L), %s)" % (kind, ident, which, j, old)
 
 
 def hook(kind, ident):
     if kind == 'entry':
-        return "P('en', %d)\nv = v + 1" % ident
+        return "P('en', %d)\nv = v + 1\nL.append(1)" % ident
     if kind == 'exit':
-        return "P('ex', %d)\nv = v + 1" % ident
+        return "P('ex', %d)\nv = v + 1\nL.append(1)" % ident
     if kind == 'action':
-        return "A(%d)\nv = v + 1" % ident
+        return "A(%d)\nv = v + 1\nL.append(1)" % ident
     return None
 
 
@@ -110,9 +110,9 @@ def harness(g, chart, level, canary=False):
     seen = []            # (kind, id, which, j, v, old) as observed by the checked run
     failing = []
 
-    def C(kind, ident, which, j, v, old):
+    def C(kind, ident, which, j, v, n, old, old_n):
         occ[0] += 1
-        seen.append((kind, ident, which, j, v, old))
+        seen.append((kind, ident, which, j, v, old, n, old_n))
         inst.log.append(('cond', kind, ident, which, j))
         b = g.bool('c%d' % occ[0])
         if not b:
@@ -123,8 +123,8 @@ def harness(g, chart, level, canary=False):
     def C_twin(*a):
         twin.log.append(('cond-evaluated-while-ignored',) + a[:4])
         return True
-    inst = Inst(g, chart, 'id', sc=(sc, trs, cm), extra_context={'C': C, 'v': v0}, tag='chk')
-    twin = Inst(g, chart, 'id', sc=(sc, trs, cm), extra_context={'C': C_twin, 'v': v0}, tag='ign',
+    inst = Inst(g, chart, 'id', sc=(sc, trs, cm), extra_context={'C': C, 'v': v0, 'L': []}, tag='chk')
+    twin = Inst(g, chart, 'id', sc=(sc, trs, cm), extra_context={'C': C_twin, 'v': v0, 'L': []}, tag='ign',
                 interp_kwargs={'ignore_contract': True})
     names = cm.names
     hist = []
@@ -250,11 +250,14 @@ def harness(g, chart, level, canary=False):
             if e in lookup and k < len(lookup[e]):
                 v, old = lookup[e][k]
                 conds.append(('probe_sees_current_v', Eq(sv[4], v), info))
+                conds.append(('probe_sees_current_list', Eq(v, v0 + sv[6]), info))
                 if e[3] != 'pre':
                     if old is None:
                         conds.append(('old_available', False, info))
                     else:
                         conds.append(('old_is_value_at_entry_or_transition_start', Eq(sv[5], old),
+                                      lambda e=e: dict(info(), probe=str(e))))
+                        conds.append(('old_is_a_snapshot_not_an_alias', Eq(old, v0 + sv[7]),
                                       lambda e=e: dict(info(), probe=str(e))))
                         g.witness('old_seen_by_state' if e[1] == 's' else 'old_seen_by_transition')
         if conds:
